@@ -231,7 +231,7 @@ class Scheduler:
             lines.append(line)   # duplicate notification
             ops.append(["emit", o, key, args])
             self.w.emit(o, key, [gen.untok(a) for a in args])
-        if p == "text" and self.r.chance(0.5):
+        if p == "text" and cls in ("SimWidget", "SimPanel") and self.r.chance(0.5):
             lines.append("EMIT %s textChanged()" % o)
             ops.append(["emit", o, "textChanged()", []])
         return "NOTIFY_SPURIOUS", lines, ops
@@ -368,7 +368,7 @@ class Scheduler:
         """a signal that has no handler on that object: other object of the class, other overload, other signal"""
         cands = []
         for n, c in sorted(self.w.cls.items()):
-            if not is_sim(c) or c == "SimModel":
+            if c not in ("SimWidget", "SimPanel"):
                 continue
             for key, ats in (("poked(int,bool)", ["int", "bool"]), ("fired()", []), ("renamed(QString,int)", ["QString", "int"]),
                              ("picked(int)", ["int"]), ("picked(QString)", ["QString"]), ("moved(int)", ["int"]), ("moved(QString)", ["QString"]),
